@@ -60,6 +60,43 @@ def gen_case(rng, wrap):
     return {"kind": "wrapped" if wrap else "plain", "vals": vals, "ops": ops, "stream": True, "depth": V.depth(base)}
 
 
+def gen_collision_case(rng, wrap):
+    """sets / function domains with more than 8 entries (immutable.Map switches from an array node to the
+    hash trie there) holding members with identical 32-bit hashes and members sharing low hash bits; the same
+    containers built in other orders; one member swapped for its collider; cluster members as HashMap keys;
+    every value also compared, and used as a HashMap key, after a gob round trip"""
+    ms = V.collision_members(rng, 9, 14)
+    A = ["S", ms]
+    A2 = V.variant(rng, A, wrap)
+    j = rng.randrange(len(ms))
+    c = V.collider(ms[j])
+    if c is not None and V.sem(c) not in {V.sem(m) for m in ms}:
+        B = ["S", ms[:j] + [c] + ms[j + 1:]]           # differs from A in one member with the same hash
+    else:
+        B = V.near_miss(rng, A)
+    F = ["F", [[m, V.gen_leaf(rng)] for m in ms]]
+    F2 = V.variant(rng, F, wrap, dup=False)
+    singles = [m for m in ms if V.collider(m) is not None or any(V.sem(m) in {V.sem(x) for x in cl} for cl in V.COLLISION_CLUSTERS)][:3]
+    vals = [A, A2, B, F, F2] + singles
+    ops = []
+    idx = list(range(len(vals)))
+    for _ in range(rng.randint(6, 14)):
+        r = rng.random()
+        i = rng.choice(idx)
+        if r < 0.3:
+            ops.append(["set", i, rng.randint(0, 99)])
+        elif r < 0.45:
+            ops.append(["setg", i, rng.randint(0, 99)])
+        elif r < 0.7:
+            ops.append(["get", i])
+        elif r < 0.92:
+            ops.append(["getg", i])
+        else:
+            ops.append(["keys"])
+    ops.append(["keys"])
+    return {"kind": "collision", "vals": vals, "ops": ops, "stream": True, "gobcross": True, "depth": 2}
+
+
 def corpus():
     out = []
     d = os.path.join(vlib.VERIF, "corpus", "C05")
@@ -144,6 +181,18 @@ def oracle(case, res):
             for i in range(n):
                 if V.semw(st[i], True) != V.semw(rv[i]["rep"], True):
                     fails.append(("gob-stream-changes-value:%s" % kind_of(vals[i]), "value %d decodes from the shared stream as %s" % (i, json.dumps(st[i])[:200])))
+    # 4b. a decoded value is Equal to an original exactly when they denote the same value
+    if case.get("gobcross"):
+        geq = res.get("geq") or []
+        if len(geq) != n:
+            fails.append(("gob-cross-missing", "no decoded-vs-original comparison returned"))
+        else:
+            for i in range(n):
+                for j in range(n):
+                    want = 1 if sems[i] == sems[j] else 0
+                    if geq[i][j] != want:
+                        fails.append(("gob-decoded-equal-wrong:%s" % kind_of(vals[i]),
+                                      "decoded value %d Equal original %d = %d, the values %s" % (i, j, geq[i][j], "denote the same value" if want else "differ")))
     # 5. String() is a TLA+ expression denoting the value (printable ASCII only)
     for i in range(n):
         if rv[i].get("serr"):
@@ -164,14 +213,14 @@ def oracle(case, res):
         for k, (op, out) in enumerate(zip(case["ops"], outs)):
             if isinstance(out, list) and out and out[0] == "panic":
                 fails.append(("hashmap-panics", "HashMap op %d %s panicked" % (k, op))); break
-            if op[0] == "set":
+            if op[0] in ("set", "setg"):
                 s = sems[op[1]]
                 if s not in m:
                     order.append(s)
                 m[s] = op[2]
             elif op[0] == "clear":
                 m, order = {}, []
-            elif op[0] == "get":
+            elif op[0] in ("get", "getg"):
                 s = sems[op[1]]
                 want = ["some", m[s]] if s in m else ["none"]
                 if out != want:
@@ -221,24 +270,32 @@ def to_coq(case, res, with_input=True):
             V.coq_cval(r["rep"], True), vlib.coq_N(max(r["hash"], 0)), vlib.coq_N(len(sb)), vlib.coq_N(str_sum(sb)),
             gob, vlib.coq_N(g.get("hash", 0))))
     eqm = vlib.coq_list([vlib.coq_list([vlib.coq_bool(x == 1) for x in row]) for row in res["eq"]])
+    geqm = vlib.coq_list([vlib.coq_list([vlib.coq_bool(x == 1) for x in row]) for row in (res.get("geq") or [])])
+    greps = [json.dumps(r["gob"].get("rep")) for r in res["vals"]]
     ops = []
     for op, out in zip(case["ops"], res.get("ops") or []):
         if op[0] == "set":
             ops.append("(CSetOp %d (%d)%%Z, RNone)" % (op[1], op[2]))
+        elif op[0] == "setg":
+            ops.append("(CSetGOp %d (%d)%%Z, RNone)" % (op[1], op[2]))
         elif op[0] == "get":
             ops.append("(CGetOp %d, RGet %s)" % (op[1], "(Some (%d)%%Z)" % out[1] if out[0] == "some" else "None"))
+        elif op[0] == "getg":
+            ops.append("(CGetGOp %d, RGet %s)" % (op[1], "(Some (%d)%%Z)" % out[1] if out[0] == "some" else "None"))
         elif op[0] == "keys":
             # Keys() returns the very Values that were passed to Set: name them by their index in the case
-            idx = [reps.index(json.dumps(x)) if json.dumps(x) in reps else len(reps) for x in out[1]]
+            # (a key stored by "setg" is the decoded Value: index + 1000 when its dump is not one of the originals')
+            idx = [reps.index(json.dumps(x)) if json.dumps(x) in reps else
+                   (1000 + greps.index(json.dumps(x))) if json.dumps(x) in greps else len(reps) for x in out[1]]
             ops.append("(CKeysOp, RKeys %s)" % vlib.coq_list(["%d%%nat" % k for k in idx]))
         else:
             ops.append("(CClearOp, RNone)")
-    return "(%s, %s, %s)" % (vlib.coq_list(obs), eqm, vlib.coq_list(ops))
+    return "(%s, %s, %s, %s)" % (vlib.coq_list(obs), eqm, geqm, vlib.coq_list(ops))
 
 
 CHECK_NAMES = {1: "rep_okb / cokb of the dumped representation", 2: "canon(rep) = canon(build(input))", 3: "Equal matrix",
                4: "Hash", 5: "String()", 6: "gob round trip (canon, rep_ok, hash)", 7: "HashMap op sequence",
-               8: "the Gallina parser on the printed form"}
+               8: "the Gallina parser on the printed form", 9: "decoded values vs originals (Equal matrix)"}
 
 
 def run(ctx):
@@ -250,14 +307,14 @@ def run(ctx):
     else:
         cases = corpus()
         for i in range(n):
-            cases.append(gen_case(rng, wrap=(i % 3 == 2)))
+            cases.append(gen_collision_case(rng, wrap=(i % 14 == 6)) if i % 7 == 6 else gen_case(rng, wrap=(i % 3 == 2)))
     for i, c in enumerate(cases):
         c["id"] = i
     scratch = "/var/tmp/verif-%d" % os.getpid()
     os.makedirs(scratch, exist_ok=True)
     try:
         # PGO_TRACE_DIR must be in the environment at process start for WrapCausal to wrap
-        rc, res, err = vlib.run_jsonl("c05", [{"id": c["id"], "vals": c["vals"], "ops": c["ops"], "stream": c.get("stream", True)} for c in cases],
+        rc, res, err = vlib.run_jsonl("c05", [{"id": c["id"], "vals": c["vals"], "ops": c["ops"], "stream": c.get("stream", True), "gobcross": c.get("gobcross", False)} for c in cases],
                                       env={"PGO_TRACE_DIR": scratch})
     finally:
         shutil.rmtree(scratch, ignore_errors=True)
@@ -265,7 +322,7 @@ def run(ctx):
     if rc != 0 or len(byid) != len(cases):
         ctx.breaks.append({"what": "harness c05 failed (rc=%d, %d/%d results)" % (rc, len(byid), len(cases)), "detail": err[-2000:]})
         return
-    dist = {"plain": 0, "wrapped": 0, "corpus": 0}
+    dist = {"plain": 0, "wrapped": 0, "corpus": 0, "collision": 0}
     kinds, depths, pair_classes = {}, {}, {"equal_by_construction": 0, "unequal": 0}
     good = []
     for c in cases:
